@@ -13,7 +13,11 @@
 (*          steps |-> << <<ie, oe, v, r, o>>, ... >>]                                          *)
 (* One step = one event: ie/oe = input-/output-domain clock edge in this event, v = value of   *)
 (* the primitive's input after the event, r = value of the output domain's reset after the     *)
-(* event (ff only), o = output observed after the event has settled.                           *)
+(* event (ff only), o = output observed after the event has settled.  The input may be any     *)
+(* expression (a signal, ~x, a slice, ResetSignal("sync"), ResetSignal("sync") | req) and the   *)
+(* synchroniser may live in any domains next to unrelated active ones (field env, informative): *)
+(* v is the expression's value; events of unrelated domains and operand changes that keep the   *)
+(* value are steps with ie = oe = 0 and v unchanged.                                            *)
 (* The monitor is deterministic: shift-register history (ff), release-after-exactly-n counter  *)
 (* (async, reset), pending-pulse ages and counters (pulse).  A clause starting with            *)
 (* "ASSUMPTION" means the *generator* left the domain of the property (harness error).         *)
